@@ -7,6 +7,8 @@ register("C14",
          "exactly the size of the matching (the code's own assert never fails), hence the cover is minimum and the matching maximum (weak duality); the cover and "
          "range clauses hold for ANY matching handed to the Koenig construction. All recursion/loop fuel of the model is proved sufficient. The model is tied to the "
          "code by exact comparison (adjacency lists, matching incl. order, both cover lists, assert outcome, exploration visit orders) on every edge set for sides "
-         "<= 3x3 (quick) / <= 4x4 (thorough) and on random graphs up to 8x8.",
+         "<= 3x3 (quick) / <= 4x4 (thorough), on random graphs up to 8x8 and on random graphs with a deficient matching (wide, tall and square, up to 9x13). "
+         "In addition the property oracle alone (independent Kuhn matching + exact minimum cover by enumeration, no model evaluation) judges the code on every edge "
+         "set of the rectangular shapes 1x4, 2x4, 3x4, 2x5 and their transposes (quick) / 2x5, 2x6, 3x5 and transposes (thorough) and on random graphs up to 14x20.",
          "Trusted: Coq kernel, vm_compute, harness; the hand-written model corresponds to the Python code only as far as the differential runs show (not a theorem). "
          "No per-instance obligations are needed: the size equality is proved for all inputs.")
